@@ -5,6 +5,7 @@ pub mod c03;
 pub mod c04;
 pub mod c05;
 pub mod c06;
+pub mod c07;
 pub mod c09;
 pub mod c10;
 pub mod c11;
@@ -25,6 +26,7 @@ pub fn run(id: &str, eng: &mut Engine) -> bool {
         "C04" => c04::run(eng),
         "C05" => c05::run(eng),
         "C06" => c06::run(eng),
+        "C07" => c07::run(eng),
         "C09" => c09::run(eng),
         "C10" => c10::run(eng),
         "C11" => c11::run(eng),
